@@ -9,6 +9,11 @@ package ws
 //@   guarded_by Mutex: open
 //@   immutable: ws proto addr iswss dtype
 //@
+//@ struct dialer
+//@   lock lock level 50
+//@   guarded_by lock: opts
+//@   immutable: addr proto iswss
+//@
 //@ struct listener
 //@   nullable: bound
 //@   method_invariant anon ==> bound != nil
